@@ -11,6 +11,7 @@ import (
 	"sort"
 	"strings"
 
+	"golang.org/x/tools/go/ast/astutil"
 	"golang.org/x/tools/go/packages"
 	"golang.org/x/tools/go/ssa"
 	"golang.org/x/tools/go/ssa/ssautil"
@@ -36,6 +37,7 @@ type Program struct {
 	specCache  map[*ssa.Function]*FuncSpec
 	sentinels  map[*types.Var]bool
 	SpecFilesRead []string
+	srcCache      map[string][]byte
 }
 
 func (p *Program) nextEpoch() int { p.epoch++; return p.epoch }
@@ -635,3 +637,70 @@ func (p *Program) FindFuncs(spec *FuncSpec) []*ssa.Function {
 }
 
 func (p *Program) FuncSpecs() []*FuncSpec { return p.funcs }
+
+// srcOf returns the (whitespace-free) source text of the expression an instruction came from.
+func (p *Program) srcOf(ins ssa.Instruction, kind string) string {
+	pos := ins.Pos()
+	if !pos.IsValid() {
+		if v, ok := ins.(ssa.Value); ok {
+			// e.g. FieldAddr/UnOp of an implicit dereference: use the first referrer or operand with a position
+			for _, op := range ins.Operands(nil) {
+				if *op != nil && (*op).Pos().IsValid() {
+					pos = (*op).Pos()
+					break
+				}
+			}
+			_ = v
+		}
+	}
+	if !pos.IsValid() {
+		return "?"
+	}
+	fn := ins.Parent()
+	for fn.Parent() != nil {
+		fn = fn.Parent()
+	}
+	if fn.Origin() != nil {
+		fn = fn.Origin()
+	}
+	pk := p.All[fnPkgPath(fn)]
+	if pk == nil {
+		return "?"
+	}
+	for _, f := range pk.Syntax {
+		if f.Pos() <= pos && pos < f.End() {
+			path, _ := astutil.PathEnclosingInterval(f, pos, pos)
+			for _, n := range path {
+				switch n.(type) {
+				case *ast.IndexExpr, *ast.SliceExpr, *ast.StarExpr, *ast.SelectorExpr, *ast.BinaryExpr, *ast.CallExpr, *ast.TypeAssertExpr, *ast.UnaryExpr, *ast.IncDecStmt, *ast.AssignStmt, *ast.CompositeLit:
+					tf := pk.Fset.File(n.Pos())
+					src, err := p.fileSrc(tf.Name())
+					if err != nil {
+						return "?"
+					}
+					txt := string(src[tf.Offset(n.Pos()):tf.Offset(n.End())])
+					txt = strings.Join(strings.Fields(txt), "")
+					if len(txt) > 60 {
+						txt = txt[:60]
+					}
+					return txt
+				}
+			}
+		}
+	}
+	return "?"
+}
+
+func (p *Program) fileSrc(name string) ([]byte, error) {
+	if p.srcCache == nil {
+		p.srcCache = map[string][]byte{}
+	}
+	if b, ok := p.srcCache[name]; ok {
+		return b, nil
+	}
+	b, err := os.ReadFile(name)
+	if err == nil {
+		p.srcCache[name] = b
+	}
+	return b, err
+}
